@@ -67,7 +67,8 @@ FILES = {"lib.exps": "macro lib($p) { l($p); if ($p == 1) { return; } m(); }\n",
          "mid.exps": 'import "./lib.exps";\nmacro mid() { ~lib(2); n(); }\n'}
 TEXTS["T-imp-lib"] = FILES["lib.exps"]
 TEXTS["T-imp-main"] = 'import "./mid.exps";\ndef 0 { ~mid(); ~lib(1); return; }\n'
-PATHS = {"T-imp-lib": IMPORT_DIR + "/lib.exps", "T-imp-main": IMPORT_DIR + "/main.exps"}
+TEXTS["T-imp-main2"] = 'import "./mid.exps";\nimport "./lib.exps";\ndef 0 { ~lib(3); ~mid(); end; }\ndef 1 for actor A { ~mid(); hold; }\n'
+PATHS = {"T-imp-lib": IMPORT_DIR + "/lib.exps", "T-imp-main": IMPORT_DIR + "/main.exps", "T-imp-main2": IMPORT_DIR + "/main2.exps"}
 
 
 def path_of(name: str) -> str:
